@@ -28,12 +28,39 @@ def obligations(tier):
     for host in ("indicator", "hexital", "hexital-member"):
         nn = 7 if tier == "quick" else 8
         obs.append(Ob(f"{host}/SMA/tf=T2/step=40s/n={nn}", dict(tf="T2", host=host, ind=["SMA", dict(period=2)], n=nn, step=40), CFG, weight=nn, budget_s=900))
+    # maintenance operations between the appends (purge, recalculate, a further member added, a member added and removed):
+    # 'each candle is converted exactly once' whatever is done to the readings in between
+    for host in ("indicator", "hexital", "hexital-member"):
+        for tf in ((None, "T2") if host != "hexital-member" else ("T2",)):
+            nn = n + 1 if tf is None else n + 3
+            obs.append(Ob(f"{host}/SMA/tf={tf}/maintenance between appends/n={nn}", dict(tf=tf, host=host, ind=["SMA", dict(period=2)], n=nn, maintenance=True), CFG, weight=nn * 3, budget_s=900))
     # Heikin-Ashi under a candle lifespan: the retained candles are the tail of the same recurrence, however the
     # stream was fed (also when a whole window expires within one call)
     for host in ("indicator", "hexital"):
         nn = 6 if tier == "quick" else 7
         obs.append(Ob(f"{host}/SMA/lifespan=2min/n={nn}", dict(host=host, ind=["SMA", dict(period=2)], n=nn, tf=None, lifespan=120), CFG, fn="run_lifespan", weight=nn, budget_s=900))
     return obs
+
+
+def maintain(P, host, ind, k, pre):
+    """before every append but the first, one maintenance operation (rotating through them)"""
+    if not P.get("maintenance") or not k:
+        return
+    ops = ["purge", "recalculate", "purge-name", "add-remove", "calculate"]
+    op = ops[(k + pre) % len(ops)]
+    if op == "purge":
+        host.purge()
+    elif op == "recalculate":
+        host.recalculate()
+    elif op == "calculate":
+        host.calculate()
+    elif op == "purge-name":
+        host.purge(ind.name) if P["host"] != "indicator" else host.purge()
+    elif op == "add-remove" and P["host"] != "indicator":
+        extra_member = build("EMA", dict(period=2, name_suffix="guest"), **({"timeframe": "T3"} if k % 2 else {}))
+        host.add_indicator(extra_member)
+        host.calculate()
+        host.remove_indicator(extra_member.name)
 
 
 def run_lifespan(ctx, P):
@@ -58,7 +85,8 @@ def run_lifespan(ctx, P):
             host = Hexital("h", src[:pre], [ind], **common)
             host.calculate()
         pos = pre
-        for c in chunks:
+        for k, c in enumerate(chunks):
+            maintain(P, host, ind, k, pre)
             part = src[pos:pos + c]
             host.append(part if c > 1 else part[0])
             pos += c
@@ -121,7 +149,8 @@ def run(ctx, P):
             host = Hexital("h", src[:pre], [ind], **common)
             host.calculate()
         pos = pre
-        for c in chunks:
+        for k, c in enumerate(chunks):
+            maintain(P, host, ind, k, pre)
             part = src[pos:pos + c]
             host.append(part if c > 1 else part[0])
             pos += c
